@@ -221,7 +221,9 @@ CLAIMED = {
         "history_independent: after any sequence of elaborate calls over any lists of tops, from the fresh state, every module below any top "
         "of any call has all passes done and is in the canonical state C n x (same as elaborated alone; elaborating again changes nothing) - "
         "under the explicit hypothesis Stable (pass k on x in state C k x yields C (k+1) x whatever later canonical state its descendants "
-        "are in, and does not fail). That the concrete passes are Stable is decided by "
+        "are in, and does not fail), which in turn follows (stable_of_frozen_views) from three code-level conditions: a pass reads its own module "
+        "and only a view of the modules below; later passes leave that view alone (what _pre_flattening_io and the per-module caches provide); on a "
+        "design elaborated in step the pass takes level k to k+1. That the concrete passes meet these conditions is decided by "
         "correspondence: all orders / kinds / groupings of elaborate / to_proto / netlist calls over the modules of generated design DAGs "
         "(shared children, bundle ports, bundle-port reference groups), parents built before or after their children were elaborated, "
         "each history in a fresh process, packages compared byte for byte with fresh single-call packages; freeze checked.",
